@@ -5,6 +5,7 @@ import (
 	"errors"
 	"net/http"
 	"net/http/httptest"
+	"os"
 	"strings"
 	"sync"
 
@@ -62,6 +63,16 @@ var c14Router = sync.OnceValue(func() routers.Router {
 	return r
 })
 
+var c14DocFile = sync.OnceValue(func() string {
+	f, err := os.CreateTemp(".", "verif-c14-*.json")
+	if err != nil {
+		panic(err)
+	}
+	f.WriteString(c14Doc)
+	f.Close()
+	return f.Name()
+})
+
 type c14Call struct {
 	C   string `json:"c"`
 	Ct  string `json:"ct,omitempty"`
@@ -74,6 +85,7 @@ type c14Case struct {
 		Strict   bool   `json:"strict"`
 		ReqClass string `json:"reqClass"`
 		ErrMode  string `json:"errMode"`
+		Gate     string `json:"gate"`
 	} `json:"cfg"`
 	Script []c14Call `json:"script"`
 }
@@ -91,6 +103,8 @@ func c14AbsCT(h http.Header) string {
 		return "text"
 	case "text/plain; charset=utf-8":
 		return "errtext"
+	case "application/json; charset=utf-8":
+		return "errjson"
 	default:
 		return "other:" + v
 	}
@@ -195,7 +209,6 @@ func c14Run(c *Case) []any {
 			w.Write([]byte("X"))
 		}))
 	}
-	v := openapi3filter.NewValidator(c14Router(), opts...)
 	handler := http.HandlerFunc(func(w http.ResponseWriter, _ *http.Request) {
 		log = append(log, map[string]any{"ev": "Enter"})
 		for _, call := range tc.Script {
@@ -221,7 +234,27 @@ func c14Run(c *Case) []any {
 		// reports http.Error's signature (status + text/plain body) as an Err event
 		sink = client
 	}
-	panicked, msg := guard(func() { v.Middleware(handler).ServeHTTP(sink, c14Request(tc.Cfg.ReqClass)) })
+	var gate http.Handler
+	if tc.Cfg.Gate == "vhandler" {
+		vh := &openapi3filter.ValidationHandler{
+			Handler: handler,
+			File:    c14DocFile(),
+			AuthenticationFunc: func(_ context.Context, in *openapi3filter.AuthenticationInput) error {
+				if in.RequestValidationInput.Request.Header.Get("X-Key") == "good" {
+					return nil
+				}
+				return errors.New("rejected")
+			},
+			ErrorEncoder: (&openapi3filter.ValidationErrorEncoder{Encoder: openapi3filter.DefaultErrorEncoder}).Encode,
+		}
+		if err := vh.Load(); err != nil {
+			panic("harness: c14 ValidationHandler.Load: " + err.Error())
+		}
+		gate = vh
+	} else {
+		gate = openapi3filter.NewValidator(c14Router(), opts...).Middleware(handler)
+	}
+	panicked, msg := guard(func() { gate.ServeHTTP(sink, c14Request(tc.Cfg.ReqClass)) })
 	end := map[string]any{"ev": "end", "panic": panicked, "finalCt": c14AbsCT(client.h)}
 	if panicked {
 		end["panicMsg"] = msg
